@@ -220,7 +220,7 @@ pub fn subs() -> Vec<Sub> {
         Sub { prop: "C05", name: "boundaries", rule: "all 2^k + d (k in 0..=64, d in -3..=3) x admissible widths x signs",
               kind: Kind::Enumerate { quick: 65 * 7 * 10, thorough: 65 * 7 * 10, f: boundaries, complete_quick: true, complete_thorough: true } },
         Sub { prop: "C05", name: "random", rule: "boundary-dense random 64-bit arguments x random admissible width x sign",
-              kind: Kind::Random { quick: 400_000, thorough: 4_000_000, tape: 24, f: random } },
+              kind: Kind::Random { quick: 2_000_000, thorough: 4_000_000, tape: 24, f: random } },
         Sub { prop: "C05", name: "sweep-4-and-8-byte", rule: "all 2^32 arguments at the 4-byte and 8-byte widths, both signs, ten core accessors (thorough tier; quick runs the first 2^20 indices)",
               kind: Kind::Enumerate { quick: 1 << 20, thorough: 4u64 << 32, f: sweep32, complete_quick: false, complete_thorough: true } },
         Sub { prop: "C05", name: "sweep-high-half", rule: "all 2^32 high halves with low half 0 / ffffffff at the 8-byte width, both signs (thorough tier; quick runs the first 2^20 indices)",
